@@ -255,6 +255,9 @@ TYPE_WRAP = None   # optional hook: fn(decl_text, t) -> text (used by C19 to put
 _AUTO = [0]
 
 
+_WRAPS = [0]
+
+
 def generic_header_wrap(decl, t):
     """TYPE_WRAP hook: the same request as a generic type — `struct TyG<G, const N: usize> where G: Copy` with the first u8
     field of type G — instantiated at <u8, 3> through a type alias, so the harness and oracle are unchanged while educe has
@@ -273,10 +276,10 @@ def generic_header_wrap(decl, t):
         return decl
     if kind == 'struct' and rest2.lstrip().startswith('('):
         return decl     # a tuple struct cannot be constructed through a type alias
-    if kind == 'struct':
-        body = f'pub struct {name}G<G, const N: usize> where G: Copy' + rest2
-    else:
-        body = f'pub enum {name}G<G, const N: usize> where G: Copy' + rest2
+    # every other wrapped request spells the where-clause the way rustfmt does: with a trailing comma
+    _WRAPS[0] += 1
+    wh = 'where G: Copy,' if _WRAPS[0] % 2 else 'where G: Copy'
+    body = f'pub {kind} {name}G<G, const N: usize> {wh}' + rest2
     return head + body + f'pub type {name} = {name}G<u8, 3>;\n'
 
 
